@@ -3,7 +3,7 @@ from fractions import Fraction as Fr
 
 from ..interp import (Interp, DomA, explore, PathCtx, Sc, Rec, Opt, Tup, Mat, PHANTOM, Unsupported, PanicEx, unref,
                       BoolV)
-from ..poly import Poly, E, equal, diff, apply_fn, is_zero
+from ..poly import Poly, E, equal, diff, apply_fn, is_zero, numerically_equal
 from ..spec import (GRADINGS, TYPES, ORDER, Spec, presence_patterns, absent_set, value_part_poly,
                     check_grading_against_adts)
 from .. import hirpp
@@ -146,6 +146,16 @@ def compare_parts(chk, keyprefix, rule, loc, sp, result, want, nontrivial_fields
         got = value_part_poly(result, field)
         w = want[field]
         ok = equal(got, w)
+        # independent cross-check of the exact rewriter by numeric identity testing of the two extracted forms
+        num = numerically_equal(got, w)
+        chk.count("rewriter verdicts cross-checked numerically" if num is not None else "rewriter verdicts without a usable numeric point")
+        if ok and num is False:
+            chk.checker_broken("rewriter claims %s == %s for %s|part=%s but the forms differ numerically" % (got.show()[:120], w.show()[:120], keyprefix, field))
+        if (not ok) and num is True:
+            # no positive evidence: the forms are numerically indistinguishable, the rewriter merely failed to prove them equal
+            chk.undecide("%s|part=%s" % (keyprefix, field), "canonical forms differ syntactically but agree numerically (rewriter incomplete): "
+                         "%s vs %s" % (got.show()[:160], w.show()[:160]), loc)
+            continue
         chk.ob("%s|part=%s" % (keyprefix, field), ok, rule, loc,
                found=got.show(), required=w.show(),
                nontrivial=bool(w.t) and (not w.is_const()),
@@ -224,3 +234,18 @@ NALGEBRA = {
     "nalgebra::base::construction::<impl nalgebra::Matrix<T, R, C, %s<T>>>::zeros_generic" % _BUF: _zeros,
     "nalgebra::base::construction::<impl nalgebra::Matrix<std::mem::MaybeUninit<T>, R, C, %sUninit<T>>>::uninit" % _BUF: _uninit,
 }
+
+
+def decide_equal(chk, key, got, want, loc=""):
+    """exact rewriter verdict, cross-checked numerically: True (equal) / False (different, with positive numeric evidence or no
+    usable point) / None (recorded as UNDECIDED: syntactically different but numerically indistinguishable)"""
+    ok = equal(got, want)
+    num = numerically_equal(got, want)
+    chk.count("rewriter verdicts cross-checked numerically" if num is not None else "rewriter verdicts without a usable numeric point")
+    if ok and num is False:
+        chk.checker_broken("rewriter claims %s == %s for %s but the forms differ numerically" % (got.show()[:120], want.show()[:120], key))
+    if (not ok) and num is True:
+        chk.undecide(key, "canonical forms differ syntactically but agree numerically (rewriter incomplete): %s vs %s" % (
+            got.show()[:160], want.show()[:160]), loc)
+        return None
+    return ok
